@@ -1,8 +1,76 @@
-(** C14 — Join / Getw / Slice (placeholder: the refuted legacy statement only; replaced when the proofs land) *)
+(** C14 — Join/Getw pack fixed-width words losslessly; Slice copies a bit range.
+    Only the property theorems (each closed by [exact]), their axiom audit and
+    non-vacuity examples.  Vocabulary (Spec/JoinSpec.v): [cdiv64 n = (n+63)/64],
+    [packed vs w] = the low [w] bits of every value one after the other,
+    [zeros n] = [n] false bits, [flat] = the bit sequence of a bitmap.
+
+    Sizes: the model computes positions in unbounded [Z]; Go's int / int32 agree
+    while 64*len < 2^31 (DESIGN section 3) — the theorems themselves carry no size bound.
+    Values need not even be in [0,2^64): [Join] masks them first.
+
+    Frame condition ("leaving the input unchanged"): the model's functions are pure —
+    [Join]/[Slice] receive an immutable list and return a new one — so the clause holds of
+    the model by construction and needs no theorem; on the implementation it is checked by
+    the before/after comparison of the correspondence run (flag 1 in the observation). *)
 From Coq Require Import ZArith List Bool Lia.
-From Low Require Import Lib.Bits Lib.BitSeq Model.BitmapJoin Model.LegacyBitmap Spec.JoinSpec.
+From Low Require Import Lib.Bits Lib.BitSeq Model.BitmapJoin Model.LegacyBitmap Spec.JoinSpec
+  Proofs.JoinProofs.
 Import ListNotations.
 Open Scope Z_scope.
+
+(** Join(values, w) never panics for a legal width and returns ceil(len*w/64) words whose bits are
+    the low w bits of the values in order, followed by zeros ("no other bit is set"). *)
+Theorem C14_Join : forall vs w, width_ok w ->
+  exists r, Join vs w = Some r /\
+    words_ok r /\ zlen r = cdiv64 (zlen vs * w) /\
+    flat r = packed vs w ++ zeros (64 * zlen r - zlen vs * w).
+Proof. exact Join_spec_holds. Qed.
+Print Assumptions C14_Join.
+
+(** [packed] with the truncation written out, as in DESIGN section 6 *)
+Theorem C14_packed_mod : forall vs w, 0 <= w ->
+  packed vs w = concat (map (fun v => bits (Z.to_nat w) (v mod 2 ^ w)) vs).
+Proof. exact packed_mod. Qed.
+Print Assumptions C14_packed_mod.
+
+(** Getw(Join(values, w), i, w) = values[i] mod 2^w for every index *)
+Theorem C14_Getw_Join : forall vs w, width_ok w ->
+  exists r, Join vs w = Some r /\
+    forall i, 0 <= i < zlen vs -> Getw r i w = Some (nth (Z.to_nat i) vs 0 mod 2 ^ w).
+Proof. exact Getw_Join. Qed.
+Print Assumptions C14_Getw_Join.
+
+(** Slice(words, from, to) never panics on 0 <= from <= to <= 64*len and returns ceil((to-from)/64)
+    words whose bits are bits [from, to) of the input followed by zeros. *)
+Theorem C14_Slice : forall ws from to, words_ok ws -> 0 <= from <= to -> to <= 64 * zlen ws ->
+  exists r, Slice ws from to = Some r /\
+    words_ok r /\ zlen r = cdiv64 (to - from) /\
+    flat r = firstn (Z.to_nat (to - from)) (skipn (Z.to_nat from) (flat ws))
+             ++ zeros (64 * zlen r - (to - from)).
+Proof. exact Slice_spec_holds. Qed.
+Print Assumptions C14_Slice.
+
+(** the same, bit by bit, in the words of the property *)
+Theorem C14_Slice_bitwise : forall ws from to, words_ok ws -> 0 <= from <= to -> to <= 64 * zlen ws ->
+  exists r, Slice ws from to = Some r /\ zlen r = cdiv64 (to - from) /\
+    (forall j, 0 <= j < to - from -> bitz (flat r) j = bitz (flat ws) (from + j)) /\
+    (forall j, to - from <= j -> bitz (flat r) j = false).
+Proof. exact Slice_bitwise. Qed.
+Print Assumptions C14_Slice_bitwise.
+
+(** the boolean checkers that judge the implementation's output in the correspondence run decide
+    exactly the specification, and the specification admits one result only *)
+Theorem C14_checkers : forall vs w ws from to r,
+  (spec_Join_ok vs w r = true <-> spec_Join vs w r) /\
+  (spec_Slice_ok ws from to r = true <-> spec_Slice ws from to r).
+Proof. exact (fun vs w ws from to r => conj (spec_Join_ok_iff vs w r) (spec_Slice_ok_iff ws from to r)). Qed.
+Print Assumptions C14_checkers.
+
+Theorem C14_spec_unique : forall vs w ws from to r r',
+  (spec_Join vs w r -> spec_Join vs w r' -> r = r') /\
+  (spec_Slice ws from to r -> spec_Slice ws from to r' -> r = r').
+Proof. exact (fun vs w ws from to r r' => conj (spec_Join_unique vs w r r') (spec_Slice_unique ws from to r r')). Qed.
+Print Assumptions C14_spec_unique.
 
 (** The pre-fix Slice returned ((to-from)+63)&^63 WORDS: 128 for the 69-bit range [1,70). *)
 Theorem C14_slice_len_refuted :
@@ -14,3 +82,29 @@ Proof.
   vm_compute. congruence.
 Qed.
 Print Assumptions C14_slice_len_refuted.
+
+(** non-vacuity, Join/Getw: width 4, three values with bits above the width that must be cut off;
+    width 32 crossing a word boundary; width 64 *)
+Example C14_Join_nonvacuous :
+  width_ok 4 /\ width_ok 32 /\ width_ok 64 /\
+  Join [0x1f; 0xf2; 0x103] 4 = Some [0x32f] /\ cdiv64 (zlen [0x1f; 0xf2; 0x103] * 4) = 1 /\
+  Getw [0x32f] 1 4 = Some 2 /\ nth 1 [0x1f; 0xf2; 0x103] 0 mod 2 ^ 4 = 2 /\
+  Join [2^32 + 5; 6; 7] 32 = Some [0x600000005; 7] /\
+  Getw [0x600000005; 7] 2 32 = Some 7 /\
+  Join [2^64 - 1; 1] 64 = Some [2^64 - 1; 1] /\
+  packed [0x1f; 0xf2] 4 = [true; true; true; true; false; true; false; false].
+Proof. vm_compute. intuition congruence. Qed.
+
+(** non-vacuity, Slice: the 69-bit range [1,70) of three words (the witness of the defect) now has
+    2 words; an empty range; an aligned full-word range *)
+Example C14_Slice_nonvacuous :
+  words_ok [1; 2; 3] /\ (0 <= 1 <= 70 /\ 70 <= 64 * zlen [1; 2; 3]) /\
+  Slice [1; 2; 3] 1 70 = Some [0; 1] /\ cdiv64 (70 - 1) = 2 /\
+  Slice [1; 2; 3] 64 66 = Some [2] /\
+  Slice [1; 2; 3] 5 5 = Some [] /\
+  Slice [1; 2; 3] 64 192 = Some [2; 3] /\
+  bitz (flat [1; 2; 3]) 65 = true.
+Proof.
+  split; [apply words_okb_ok; reflexivity|].
+  vm_compute. intuition congruence.
+Qed.
